@@ -1097,6 +1097,23 @@ func main() {
 				}
 			}
 		}
+		// (f) nested calls: a handler calls back over its own session and waits
+		if !p.Struct && !p.HTTP {
+			ne := newNestedEnv(e)
+			k := 0
+			for _, action := range []string{"cutEOF", "cutReset", "localClose", "remoteClose"} {
+				for _, n := range []int{1, 3} {
+					// the far handler that the harness holds is always released after the event and before the verdict: what a
+					// disconnect or a graceful Close legitimately waits for (running handlers) has then ended
+					for _, rel := range []bool{true} {
+						k++
+						if mine() {
+							runNested(ne, action, n, rel, k)
+						}
+					}
+				}
+			}
+		}
 		// (d)
 		for k := 0; k < nChaos; k++ {
 			if mine() {
